@@ -45,7 +45,8 @@ THEOREMS = [
     "OllamaVerif.C19.F4_system_at_cut_dropped",
     "OllamaVerif.C19.F4b_legacy_overwrite",
 ]
-OVERLAY = {"server/zz_verif_c19_test.go": "server/zz_verif_c19_test.go"}
+OVERLAY = {"server/zz_verif_c19_test.go": "server/zz_verif_c19_test.go",
+           "server/zz_verif_c19tmpl_test.go": "server/zz_verif_c19tmpl_test.go"}
 
 
 def run(ctx):
